@@ -95,7 +95,21 @@ class _Norm(ast.NodeTransformer):
                 return ast.Name(id='P_' + node.slice.value, ctx=ast.Load())
         return node
 
+    def visit_Call(self, node):
+        self.generic_visit(node)
+        if isinstance(node.func, ast.Name) and node.func.id == 'bool' and len(node.args) == 1 and not node.keywords:
+            return node.args[0]           # truth of bool(x) is truth of x
+        return node
+
     def visit_Attribute(self, node):
+        if isinstance(node.value, ast.Name) and node.value.id in self.aliases:
+            # trun = self.parent ; trun.flags
+            seen = set()
+            v = node.value
+            while isinstance(v, ast.Name) and v.id in self.aliases and v.id not in seen:
+                seen.add(v.id)
+                v = self.aliases[v.id]
+            node = ast.Attribute(value=v, attr=node.attr, ctx=ast.Load())
         base = norm(node.value)
         if base in ('self.parent', 'parent') or base in self.parent_names:
             return ast.Name(id='P_' + node.attr, ctx=ast.Load())
@@ -279,6 +293,7 @@ class _Ctx:
         self.parent_names: set[str] = set()
         self.cond_env: dict[str, list] = {}       # name -> [(cond, (bits, signed))]
         self.fmt_cond_env: dict[str, list] = {}   # name -> [(cond, struct format string)]
+        self.zero_when: dict[str, tuple] = {}     # count name -> (cond, zero on the then branch?)
         args = [a.arg for a in f.node.args.args]
         self.params = args
         # bit readers/writers passed in as parameters
@@ -328,6 +343,7 @@ class _Ctx:
             orelse = self.block(st.orelse)
             # width variables assigned in both branches: sz = 'Q' / 'I'
             self._cond_width(st, c)
+            self._zero_counts(st, c)
             if not then and not orelse:
                 return []
             return [If(c, then, orelse, st.lineno)]
@@ -336,7 +352,8 @@ class _Ctx:
             if not body:
                 return []
             over = norm(st.iter) if isinstance(st, ast.For) else 'while ' + norm(st.test)
-            return [Loop(self._loop_norm(over), body, st.lineno)]
+            return self._guarded_loop(st.iter if isinstance(st, ast.For) else None,
+                                      Loop(self._loop_norm(over), body, st.lineno))
         if isinstance(st, ast.Return):
             items = self.expr_io(st.value, None, st.lineno) if st.value is not None else []
             return items + [Ret(st.lineno)]
@@ -366,6 +383,32 @@ class _Ctx:
         if isinstance(st, (ast.FunctionDef, ast.ClassDef)):
             return []
         raise Unsupported(f'statement {type(st).__name__}')
+
+    def _zero_counts(self, st: ast.If, c: str) -> None:
+        """count = r.get(...) if cond else 0 (in statement form): a loop over range(count) does no I/O
+        when the condition is false, so it is the guarded loop of the other side"""
+        def consts(body):
+            return {s.targets[0].id for s in body
+                    if isinstance(s, ast.Assign) and len(s.targets) == 1 and isinstance(s.targets[0], ast.Name)
+                    and isinstance(s.value, ast.Constant) and s.value.value == 0
+                    and not isinstance(s.value.value, bool)}
+
+        def assigned(body):
+            return {s.targets[0].id for s in body
+                    if isinstance(s, ast.Assign) and len(s.targets) == 1 and isinstance(s.targets[0], ast.Name)}
+        for zero_body, other, zero_in_then in ((st.body, st.orelse, True), (st.orelse, st.body, False)):
+            for k in consts(zero_body) & (assigned(other) - consts(other)):
+                if self._assign_count(k) == 2:
+                    self.zero_when[k] = (c, zero_in_then)
+
+    def _guarded_loop(self, it: ast.AST | None, loop) -> list:
+        if isinstance(it, ast.Call) and isinstance(it.func, ast.Name) and it.func.id == 'range' \
+                and len(it.args) == 1 and not it.keywords:
+            it = it.args[0]
+        if isinstance(it, ast.Name) and it.id in self.zero_when:
+            c, zero_in_then = self.zero_when[it.id]
+            return [If(c, [], [loop], loop.line)] if zero_in_then else [If(c, [loop], [], loop.line)]
+        return [loop]
 
     def _loop_norm(self, over: str) -> str:
         over = re.sub(r'\brange\((.*)\)$', r'\1', over)
@@ -443,8 +486,8 @@ class _Ctx:
         # guard aliases: flags = trun["flags"] ; subsample_encryption = (flags & K) == K
         # (only names assigned exactly once, at the top level of the method)
         if isinstance(t, ast.Name) and not self._has_io(v):
-            if st in self.f.node.body and self._assign_count(t.id) == 1 \
-                    and t.id not in self.params:
+            if self._assign_count(t.id) == 1 and t.id not in self.params \
+                    and (st in self.f.node.body or self._uses_follow(st, t.id)):
                 self.aliases[t.id] = v
             return []
         name = None
@@ -455,6 +498,19 @@ class _Ctx:
         elif isinstance(t, ast.Attribute):
             name = t.attr
         return self.expr_io(v, name, st.lineno)
+
+    def _uses_follow(self, st: ast.stmt, name: str) -> bool:
+        """every read of `name` is in a statement after `st` in the same block (the assignment, made
+        inside a branch, dominates all its uses)"""
+        for n in ast.walk(self.f.node):
+            for fld in ('body', 'orelse', 'finalbody'):
+                blk = getattr(n, fld, None)
+                if isinstance(blk, list) and any(x is st for x in blk):
+                    i = next(j for j, x in enumerate(blk) if x is st)
+                    inside = {id(x) for later in blk[i + 1:] for x in ast.walk(later)}
+                    return all(id(x) in inside for x in ast.walk(self.f.node)
+                               if isinstance(x, ast.Name) and x.id == name and isinstance(x.ctx, ast.Load))
+        return False
 
     def _assign_count(self, name: str) -> int:
         n = 0
@@ -490,7 +546,8 @@ class _Ctx:
             body = self.expr_io(e.elt, None, line)
             if not body:
                 return []
-            return [Loop(self._loop_norm(norm(e.generators[0].iter)), body, line)]
+            return self._guarded_loop(e.generators[0].iter,
+                                      Loop(self._loop_norm(norm(e.generators[0].iter)), body, line))
         calls = [n for n in ast.walk(e) if isinstance(n, ast.Call)]
         # innermost-first order == source order for our idioms
         handled: set[int] = set()
